@@ -9,8 +9,8 @@ def run(tier):
     k = run_tlc("Kx", workers=2, xss="512m", coverage=False, timeout=600)
     ck.require_tlc_ok(k, "Kx.tla (ConvertedPairConsistent, FromSecretKey)")
     wd = workdir("c13")
-    for cfg in ["stable", "nightly"] + (["simd"] if tier == "thorough" else []):
-        for s in range(150 if tier == "thorough" else 1):
+    for cfg in ["stable", "nightly", RELEASE] + (["simd"] if tier == "thorough" else []):
+        for s in range(150 if tier == "thorough" and cfg != RELEASE else 1):
             o = os.path.join(wd, "sweep.json")
             conform(cfg, ["prims-sweep-c13", o, ck.seed + s])
             _merge(ck, json.load(open(o)), "" if cfg == "stable" else "[%s] " % cfg)
